@@ -773,3 +773,100 @@ func TestVfProxy(t *testing.T) {
 	}
 	fmt.Printf("VF cases=%d events=%d\n", pr.ncase, tr.n)
 }
+
+// TestVfTcpPipeline: C01 over TCP ingress - bursts of requests pipelined on ONE real TCP connection to a real
+// TCPServerTransport (the reader goroutine decodes the next messages while earlier ones still wait for the loop),
+// relayed by static route to a UDP sink; every relayed message is compared with its own input.
+func TestVfTcpPipeline(t *testing.T) {
+	tr := vfOpenTrace(t, "VERIF_TRACE")
+	defer tr.Close()
+	pr := &vfProxyRun{t: t, tr: tr, branches: map[string]bool{}}
+	pr.g = &vfGamma{base: vfIPBase(), rnd: vfRand(33), decor: 1, hard: true}
+	for _, n := range strings.Split(vfNamesCfg, ",") {
+		if p, err := regexp.Compile(strings.TrimSpace(n)); err == nil {
+			pr.names = append(pr.names, p)
+		}
+	}
+	g := pr.g
+	sink := vfAllSinks.get(t, g.ip("10.0.1.4"), 6001)
+	cfg := vfBenchCfg{Names: vfNamesCfg, Hosts: g.hosts(), Static: []vfRouteCfg{{"udp", "e.x", g.ip("10.0.1.4") + ":6001"}},
+		Proxies: []vfPCfg{{Addr: g.ip("10.0.0.1"), Trans: []vfTCfg{{"UDP", 5060, false}, {"TCP", 0, true}}, Recv: true}}}
+	b := vfGetBench(t, cfg)
+	port := b.trans[0][1].(*TCPServerTransport).port
+	nb := vfEnvInt("VERIF_NBURST", 12)
+	ncase := 0
+	for bi := 0; bi < nb; bi++ {
+		id := fmt.Sprintf("pipe%d", bi)
+		b.reset(t)
+		pr.emitReset(id, b)
+		cli := vfDial(t, g.ip("10.0.5.5"), g.ip("10.0.0.1"), port)
+		if !b.wait("loop.conn") {
+			t.Fatalf("VF-INFRA accepted connection not processed")
+		}
+		n := 5 + g.rnd.Intn(40)
+		var raws [][]byte
+		var all []byte
+		for i := 0; i < n; i++ {
+			X := g.extHeaders()
+			if len(X) > 4 {
+				X = X[:4]
+			}
+			bl := []int{0, 10, 300, 3000}[g.rnd.Intn(4)]
+			body := make([]byte, bl)
+			for j := range body {
+				body[j] = byte('A' + (bi*7+i)%26)
+			}
+			hs := []vfHdr{{"Via", fmt.Sprintf("SIP/2.0/TCP %s:5062;branch=z9hG4bKp%d-%d", g.ip("10.0.2.1"), bi, i)}, {"Max-Forwards", "70"},
+				{"From", "<sip:a@a.example>;tag=f"}, {"To", "<sip:b@e.x>"}, {"Call-ID", fmt.Sprintf("%s-%d", id, i)}, {"CSeq", "1 MESSAGE"}}
+			for _, x := range X {
+				if len(x.v) < 3000 { // header lines stay below the reader window here: long lines are C11's business
+					hs = append(hs, x)
+				}
+			}
+			hs = append(hs, vfHdr{g.name("Content-Length"), fmt.Sprint(bl)})
+			raw := vfRender("MESSAGE sip:b@e.x SIP/2.0", hs, body)
+			raws = append(raws, raw)
+			all = append(all, raw...)
+		}
+		vfAllSinks.pollAll()
+		// the whole burst in a few large writes
+		for len(all) > 0 {
+			k := 1 + g.rnd.Intn(len(all))
+			cli.write(all[:k])
+			all = all[k:]
+		}
+		stuck := false
+		for i := 0; i < n; i++ {
+			if !b.wait("loop.msg") {
+				stuck = true
+				break
+			}
+		}
+		got := map[string][]vfRecv{}
+		for _, rv := range sink.poll() {
+			cid := ""
+			for _, h := range vfAlpha(rv.raw).Hdrs {
+				if h.Cls == "callid" {
+					cid = h.Val
+				}
+			}
+			got[cid] = append(got[cid], rv)
+		}
+		for i, raw := range raws {
+			in := vfAlpha(raw)
+			outs := []vfM{}
+			var oms []vfAMsg
+			for _, rv := range got[fmt.Sprintf("%s-%d", id, i)] {
+				am := vfAlpha(rv.raw)
+				oms = append(oms, am)
+				outs = append(outs, vfM{"kind": "sink", "addr": fmt.Sprintf("%s:%d", rv.ip, rv.port), "ip": rv.ip, "port": rv.port, "proto": rv.proto, "msg": am, "cookie": true, "fresh": true})
+			}
+			pr.tr.Emit(vfM{"ev": "step", "case": id, "cls": fmt.Sprintf("tcp-pipelined burst=%d index=%d", n, i), "pi": 1, "lid": "p1.t2",
+				"src": vfM{"ip": cli.ip, "port": cli.port}, "inmsg": in, "outs": outs, "pool": []string{}, "rx": vfM{"sip": false, "abs": false}, "tohost": vfChars("e.x"),
+				"resolv": pr.resolv(b, append(oms, in)...), "panic": "", "stuck": stuck, "learned_obs": vfM{}})
+		}
+		cli.close()
+		ncase++
+	}
+	fmt.Printf("VF cases=%d events=%d\n", ncase, tr.n)
+}
